@@ -182,7 +182,7 @@ func (d *deadliner) run(ctx context.Context, deadlineFunc DeadlineFunc) {
 			}
 
 			// Ignore (and signal) duties that have already expired.
-			if deadline.Before(d.clock.Now()) {
+			if !deadline.After(d.clock.Now()) {
 				input.success <- DeadlineExpired
 				continue
 			}
